@@ -75,6 +75,8 @@ int main() {
   static const char* vn[] = {"plain", "det_id", "local_state", "det_id+local_state+pia", "det_parallel_break", "det_id+fixed_neighborhood"};
   vsim_note("component", "deterministic:%s", vn[variant]);
   vsim_enable_fault(VF_CAS_WEAK, 0.005, 0.1);
+  vsim_enable_fault(VF_PLAIN_PREEMPT, 0.02, 0.6);   // plain shared data of the library (behind locks, in shared helper state) becomes preemptible
+  vsim_plain_preempt_window(1);   // the operator only touches data of objects it owns
   vsim_enable_fault(VF_COND_SPURIOUS, 0.02, 0.2);
   galois::SharedMemSys Gs;
   int hw = (int)galois::substrate::getThreadPool().getMaxThreads();
